@@ -1,7 +1,8 @@
 (** Protocol operations for C04 (see Lib/Val.v). *)
 From Coq Require Import ZArith List Bool String.
 From Low Require Import Lib.MachInt Lib.Bits Lib.BitSeq Lib.Lex Lib.Bytes Lib.Val
-  Spec.Bmtree Spec.AllPathsSpec Model.BmtreePath Model.BmtreeIndex Model.BmtreeAllPaths Model.BitmapOf.
+  Spec.Bmtree Spec.AllPathsSpec Spec.FromStr32Spec Spec.PathsOfSortedSpec
+  Model.BmtreePath Model.BmtreeIndex Model.BmtreeAllPaths Model.BitmapOf Model.FromStr32.
 Import ListNotations.
 Open Scope string_scope.
 Open Scope Z_scope.
@@ -34,13 +35,13 @@ Definition c04_sub_ok (T : Z) (ss : list node) : bool :=
   forallb (fun q => (zlen q <=? Height T) && stored T q) ss && c04_sorted ss.
 
 (** encode the nodes of S as the bitmap Of(map PathToIndex S), then Decode it *)
-Definition c04_roundtrip (T : Z) (ss : list node) : option (list Z) :=
-  match opt_all (map (fun q => PathToIndex T (c04_word T q)) ss) with
+Definition c04_roundtrip (dbg : bool) (T : Z) (ss : list node) : option (list Z) :=
+  match opt_all (map (fun q => (if dbg then PathToIndex_debug else PathToIndex) T (c04_word T q)) ss) with
   | None => None
   | Some idxs =>
       match Of idxs None with
       | None => None
-      | Some bm => Decode T bm
+      | Some bm => (if dbg then Decode_debug else Decode) T bm
       end
   end.
 
@@ -69,15 +70,21 @@ Definition c04_spec_allpaths (a : list val) : val :=
       | _, _, _ => VBad end
   | _ => VBad end.
 
-Definition c04_run_decode (a : list val) : val :=
+(** [dbg] selects the model of the build under test: release (contracts compiled out) or
+    [-tags debug] (PathToIndex runs its contracts first).  The specification is the same. *)
+Definition c04_pti (dbg : bool) := if dbg then PathToIndex_debug else PathToIndex.
+Definition c04_dec (dbg : bool) := if dbg then Decode_debug else Decode.
+
+Definition c04_run_decode_b (dbg : bool) (a : list val) : val :=
   match a with
   | [T; bm] => match as_z T, as_zs bm with
       | Some T, Some bm =>
           if c04_T_ok T && c04_dec_ok T && words_okb bm then
-            match Decode T bm with Some l => vzs l | None => VPanic end
+            match c04_dec dbg T bm with Some l => vzs l | None => VPanic end
           else VBad
       | _, _ => VBad end
   | _ => VBad end.
+Definition c04_run_decode := c04_run_decode_b false.
 Definition c04_spec_decode (a : list val) : val :=
   match a with
   | [T; bm] => match as_z T, as_zs bm with
@@ -96,26 +103,170 @@ Definition c04_two (f : list val -> val) (a : list val) : val :=
       end
   | _ => VBad end.
 
+(** widening: adjacent windows [a,b) and [b,c) and their union [a,c) *)
+Definition c04_run_split (a : list val) : val :=
+  match a with
+  | [T; x; y; z] => match as_z T, as_z x, as_z y, as_z z with
+      | Some T, Some x, Some y, Some z =>
+          if c04_T_ok T && c04_u64 x && c04_u64 z && (x <=? y) && (y <=? z) && c04_win_ok T x z then
+            match AllPaths T x y, AllPaths T y z, AllPaths T x z with
+            | Some l1, Some l2, Some l3 => VL [vzs l1; vzs l2; vzs l3]
+            | _, _, _ => VPanic end
+          else VBad
+      | _, _, _, _ => VBad end
+  | _ => VBad end.
+Definition c04_spec_split (a : list val) : val :=
+  match a with
+  | [T; x; y; z] => match as_z T, as_z x, as_z y, as_z z with
+      | Some T, Some x, Some y, Some z =>
+          let l1 := check_allpaths T (c04_h T) x y in
+          let l2 := check_allpaths T (c04_h T) y z in
+          VL [vzs l1; vzs l2; vzs (l1 ++ l2)]
+      | _, _, _, _ => VBad end
+  | _ => VBad end.
+
+(** widening: the PathToIndex values of the words of a window: consecutive integers starting at
+    the number of stored words below [from] *)
+Definition c04_run_index (dbg : bool) (a : list val) : val :=
+  match a with
+  | [T; f; t] => match as_z T, as_z f, as_z t with
+      | Some T, Some f, Some t =>
+          if c04_T_ok T && c04_dec_ok T && c04_u64 f && c04_u64 t && c04_win_ok T f t then
+            match AllPaths T f t with
+            | Some l => match opt_all (map (c04_pti dbg T) l) with Some r => vzs r | None => VPanic end
+            | None => VPanic end
+          else VBad
+      | _, _, _ => VBad end
+  | _ => VBad end.
+Definition c04_spec_index (a : list val) : val :=
+  match a with
+  | [T; f; t] => match as_z T, as_z f, as_z t with
+      | Some T, Some f, Some t =>
+          let W := stored_words T (c04_h T) in
+          vzs (map Z.of_nat (seq (List.length (filter (fun w => w <? f) W)) (List.length (spec_allpaths T (c04_h T) f t))))
+      | _, _, _ => VBad end
+  | _ => VBad end.
+
+(** widening: Decode, then re-encode: [PathToIndex of the decoded words; ToArray-style 1-bits of Of(them)] *)
+Definition c04_run_reencode (dbg : bool) (a : list val) : val :=
+  match a with
+  | [T; bm] => match as_z T, as_zs bm with
+      | Some T, Some bm =>
+          if c04_T_ok T && c04_dec_ok T && words_okb bm then
+            match c04_dec dbg T bm with
+            | Some l => match opt_all (map (c04_pti dbg T) l) with
+                | Some idxs => match Of idxs None with
+                    | Some r => VL [vzs idxs; vzs r]
+                    | None => VPanic end
+                | None => VPanic end
+            | None => VPanic end
+          else VBad
+      | _, _ => VBad end
+  | _ => VBad end.
+(** the checker: the indices are the 1-bits of bm below T; the re-encoded bitmap has exactly those 1-bits
+    and no more words than needed for the last of them *)
+Definition c04_spec_reencode (a : list val) (obs : val) : bool :=
+  match a, obs with
+  | [T; bm], VL [oi; orr] => match as_z T, as_zs bm, as_zs oi, as_zs orr with
+      | Some T, Some bm, Some idxs, Some r =>
+          let want := filter (fun p => p <? T) (ones (flat bm)) in
+          val_eqb (vzs idxs) (vzs want) && words_okb r && val_eqb (vzs (ones (flat r))) (vzs want) &&
+          (zlen r =? (match want with [] => 0 | _ => last want 0 + 1 end + 63) / 64)
+      | _, _, _, _ => false end
+  | _, _ => false end.
+
+(** widening across C11/C03/C12: keys -> PathsOf (dedup) -> PathToIndex -> Of -> Decode.
+    Domain: byte strings in Go's string order sharing their first [from] bits, every path length a
+    stored level of T. *)
+Definition c04_keys_ok (T from : Z) (keys : list (list Z)) : bool :=
+  c04_T_ok T && c04_dec_ok T && (0 <=? from) && (from <? 2 ^ 20) &&
+  forallb (fun s => bytes_okb s && (zlen s <? 2 ^ 20)) keys &&
+  keys_sortedb keys && same_prefixb from keys &&
+  forallb (fun s => Z.testbit T (clamp (8 * zlen s - from) 0 (Height T))) keys.
+
+Definition c04_run_keys (dbg : bool) (a : list val) : val :=
+  match a with
+  | [T; from; keys] => match as_z T, as_z from, as_zss keys with
+      | Some T, Some from, Some keys =>
+          if c04_keys_ok T from keys then
+            match PathsOf keys from (Height T) true with
+            | None => VPanic
+            | Some ps =>
+                match opt_all (map (c04_pti dbg T) ps) with
+                | None => VPanic
+                | Some idxs =>
+                    match Of idxs None with
+                    | None => VPanic
+                    | Some bm => match c04_dec dbg T bm with Some l => VL [vzs ps; vzs l] | None => VPanic end
+                    end
+                end
+            end
+          else VBad
+      | _, _, _ => VBad end
+  | _ => VBad end.
+Definition c04_spec_keys (a : list val) : val :=
+  match a with
+  | [T; from; keys] => match as_z T, as_z from, as_zss keys with
+      | Some T, Some from, Some keys =>
+          let ps := spec_PathsOf keys from (Height T) true in VL [vzs ps; vzs ps]
+      | _, _, _ => VBad end
+  | _ => VBad end.
+
+(** widening: the sub-tree of a node as a window: from = word of q, to = word of the right-most
+    leaf below q, plus one (at most 2^13 leaves below q) *)
+Definition c04_run_subtree (a : list val) : val :=
+  match a with
+  | [T; q] => match as_z T, c04_node q with
+      | Some T, Some q =>
+          if c04_T_ok T && (zlen q <=? Height T) && (Height T - zlen q <=? 13) then
+            let k := (c04_h T - List.length q)%nat in
+            match AllPaths T (c04_word T q) (c04_word T (q ++ repeat true k)%list + 1) with
+            | Some l => vzs l | None => VPanic end
+          else VBad
+      | _, _ => VBad end
+  | _ => VBad end.
+Definition c04_spec_subtree (a : list val) : val :=
+  match a with
+  | [T; q] => match as_z T, c04_node q with
+      | Some T, Some q => vzs (spec_subtree T (c04_h T) q)
+      | _, _ => VBad end
+  | _ => VBad end.
+
+Definition c04_run_roundtrip (dbg : bool) (a : list val) : val :=
+  match a with
+  | [T; ss] => match as_z T, c04_nodes ss with
+      | Some T, Some ss =>
+          if c04_T_ok T && c04_dec_ok T && c04_sub_ok T ss then
+            match c04_roundtrip dbg T ss with Some l => vzs l | None => VPanic end
+          else VBad
+      | _, _ => VBad end
+  | _ => VBad end.
+Definition c04_spec_roundtrip (a : list val) : val :=
+  match a with
+  | [T; ss] => match as_z T, c04_nodes ss with
+      | Some T, Some ss => vzs (map (enc (c04_h T)) ss)
+      | _, _ => VBad end
+  | _ => VBad end.
+
 Definition ops_C04 : list opdef := [
   (* AllPaths(T, from, to): the returned slice *)
   {| op_name := "bmtree.AllPaths"; op_run := c04_run_allpaths; op_spec := fun_spec c04_spec_allpaths |};
   {| op_name := "bmtree.AllPaths/held"; op_run := c04_two c04_run_allpaths; op_spec := fun_spec (c04_two c04_spec_allpaths) |};
-  (* Decode(T, bm): the returned slice *)
+  {| op_name := "bmtree.AllPaths/split"; op_run := c04_run_split; op_spec := fun_spec c04_spec_split |};
+  (* Decode(T, bm): the returned slice; release and debug build *)
   {| op_name := "bmtree.Decode"; op_run := c04_run_decode; op_spec := fun_spec c04_spec_decode |};
+  {| op_name := "bmtree.Decode/debug"; op_run := c04_run_decode_b true; op_spec := fun_spec c04_spec_decode |};
   {| op_name := "bmtree.Decode/held"; op_run := c04_two c04_run_decode; op_spec := fun_spec (c04_two c04_spec_decode) |};
+  (* compositions with PathToIndex (called by the harness itself): release and debug build *)
+  {| op_name := "bmtree.AllPaths/index"; op_run := c04_run_index false; op_spec := fun_spec c04_spec_index |};
+  {| op_name := "bmtree.AllPaths/index/debug"; op_run := c04_run_index true; op_spec := fun_spec c04_spec_index |};
+  {| op_name := "bmtree.Decode/reencode"; op_run := c04_run_reencode false; op_spec := c04_spec_reencode |};
+  {| op_name := "bmtree.Decode/reencode/debug"; op_run := c04_run_reencode true; op_spec := c04_spec_reencode |};
   (* Decode(T, Of(map PathToIndex S)) for a sub-list S of the stored nodes: the words of S *)
-  {| op_name := "bmtree.Decode/roundtrip";
-     op_run := fun a => match a with
-       | [T; ss] => match as_z T, c04_nodes ss with
-           | Some T, Some ss =>
-               if c04_T_ok T && c04_dec_ok T && c04_sub_ok T ss then
-                 match c04_roundtrip T ss with Some l => vzs l | None => VPanic end
-               else VBad
-           | _, _ => VBad end
-       | _ => VBad end;
-     op_spec := fun_spec (fun a => match a with
-       | [T; ss] => match as_z T, c04_nodes ss with
-           | Some T, Some ss => vzs (map (enc (c04_h T)) ss)
-           | _, _ => VBad end
-       | _ => VBad end) |}
+  {| op_name := "bmtree.Decode/roundtrip"; op_run := c04_run_roundtrip false; op_spec := fun_spec c04_spec_roundtrip |};
+  {| op_name := "bmtree.Decode/roundtrip/debug"; op_run := c04_run_roundtrip true; op_spec := fun_spec c04_spec_roundtrip |};
+  {| op_name := "bmtree.AllPaths/subtree"; op_run := c04_run_subtree; op_spec := fun_spec c04_spec_subtree |};
+  (* keys -> PathsOf -> PathToIndex -> Of -> Decode *)
+  {| op_name := "bmtree.PathsOf/decode"; op_run := c04_run_keys false; op_spec := fun_spec c04_spec_keys |};
+  {| op_name := "bmtree.PathsOf/decode/debug"; op_run := c04_run_keys true; op_spec := fun_spec c04_spec_keys |}
 ].
